@@ -212,7 +212,9 @@ def full_tree(r):
     names = {}
     for nm, group in by_name.items():
         for o in group:
-            names[id(o)] = nm if len(group) == 1 else f"{nm}@{o.engine.name}"
+            # several leaf objects of one engine sharing a name denote the same table (harness aliases);
+            # only same-named leaves of DIFFERENT engines need telling apart
+            names[id(o)] = nm if len({g.engine.name for g in group}) == 1 else f"{nm}@{o.engine.name}"
     leaves = {names[i]: o for i, o in objs.items()}
     t = project.tree(r, names)
 
